@@ -218,6 +218,30 @@ def crash_driver(world):
     w.ctx.log.add('world', 'driver_crashed', w.driver_gen, n)
 
 
+async def sigterm_driver(world, grace=5.0):
+    """graceful shutdown (SIGTERM): the service stops accepting requests and every task of the process is CANCELLED --
+    CancelledError is thrown at whatever await each task is suspended in, so `finally` blocks, transaction exits and
+    `except` clauses DO run (unlike a crash).  What has not finished after `grace` simulated seconds is killed."""
+    from simkit.loop import PROC
+    w = world
+    loop = asyncio.get_running_loop()
+    proc = w.driver_proc
+    svc = w.net.services.get('batch-driver')
+    if svc is not None:
+        svc.up = False
+    tasks = [t for t in asyncio.all_tasks(loop)
+             if not t.done() and t.get_context().get(PROC, 'main') == proc]
+    tasks.sort(key=lambda t: getattr(t, '_sim_id', 0))
+    for t in tasks:
+        t.cancel()
+    w.ctx.fault('sigterm.driver')
+    w.ctx.log.add('world', 'driver_sigterm', w.driver_gen, len(tasks))
+    t0 = loop.time()
+    while loop.time() - t0 < grace and any(not t.done() for t in tasks):
+        await asyncio.sleep(0.05)
+    crash_driver(w)
+
+
 async def restart_driver(world):
     """a new driver process boots from the database (as the deployment's restart does).  A boot that fails -- e.g. a
     database error while the start-up queries run -- kills that incarnation and the next one is started (the
